@@ -28,7 +28,7 @@ RULE = ("(a) each of the 19 shared functions on its whole domain: all 8192 13-bi
 ASSUMPTIONS = ["no Cython compiler on the image: the working-tree .pyx is observed through a line-by-line emulation of its C typing (DESIGN 2.5); "
                "C undefined behaviour and overflow on assignment to typed locals are outside what it models",
                "the pre-built binary corresponds to the pinned .pyx (fixtures/c_common.pinned.pyx) and is used for calibration only",
-               "binary strings are limited to 62 bits and hex strings to 15 digits for bin2int/hex2int (C long)"]
+               "binary strings are limited to 62 bits and hex strings to 15 digits for bin2int/hex2int (C long); bin2hex is also compared on 56 ... 120 bits (it is handed whole frames)"]
 
 _C = {}
 
@@ -182,8 +182,8 @@ def s_misc(draw):
     kind = draw(st.sampled_from(["bin", "floor", "assigned", "wrongstatus", "nl"]))
     c = {"pair": draw(st.sampled_from(["emu", "emu", "calib"])), "kind": kind}
     if kind == "bin":
-        n = draw(st.integers(1, 62))
-        c["s"] = format(draw(gen.ubits(n)), "0%db" % n)
+        n = draw(st.one_of(st.integers(1, 62), st.sampled_from([56, 112, 63, 64, 65, 112, 120])))
+        c["s"] = format(draw(st.one_of(gen.ubits(n), st.sampled_from([(1 << n) - 1, 1 << (n - 1)]))), "0%db" % n)
     elif kind == "floor":
         c["x"] = draw(st.one_of(gen.ufloat(-1e6, 1e6), st.floats(-1e9, 1e9, allow_nan=False), st.sampled_from([-3.6, 3.6, -0.0, 0.5, -0.5, -1.0, 2.0 ** 40 + 0.5, -1e-300])))
     elif kind == "assigned":
@@ -212,7 +212,10 @@ def chk_misc(case, note):
     A, B, sa, sb = sd
     k = case["kind"]
     if k == "bin":
-        p = compare("bin2int", (case["s"],), A.bin2int, B.bin2int, note, sa, sb) or compare("bin2hex", (case["s"],), A.bin2hex, B.bin2hex, note, sa, sb)
+        # bin2hex is handed the 56 / 112 bits of a whole frame by the demodulator (rtlreader); bin2int returns a C long in the Cython twin and is compared up to 62 bits
+        p = (compare("bin2int", (case["s"],), A.bin2int, B.bin2int, note, sa, sb) if len(case["s"]) <= 62 else None) or compare("bin2hex", (case["s"],), A.bin2hex, B.bin2hex, note, sa, sb)
+        if len(case["s"]) > 62:
+            note.cls("bin2hex-of-%d-bits" % len(case["s"]))
     elif k == "floor":
         p = compare("floor", (case["x"],), A.floor, B.floor, note, sa, sb)
     elif k == "assigned":
